@@ -701,3 +701,12 @@ def mutate(text, rng):
         a, b = min(i, j), max(i, j)
         return text[:a] + text[b:b + 30] + text[a:b] + text[b + 30:]   # transposition
     return text[:i] + text[i:i + 200] * 2 + text[i + 200:]              # duplication
+
+
+def hash_source(kind, name):
+    """the three project shapes of the driver's hash-extreme search (harness/src/bin/c15.rs hash_src, same text)"""
+    if kind == "struct":
+        return "#[derive(serde::Serialize)]\npub struct %s { pub a: u8 }\n#[tauri::command]\npub fn get() -> %s { todo!() }\n" % (name, name)
+    if kind == "event":
+        return "#[tauri::command]\npub fn c(app: tauri::AppHandle) { app.emit(\"%s\", 1u8).ok(); }\n" % name
+    return "#[tauri::command]\npub fn %s() {}\n" % name
